@@ -544,7 +544,7 @@ def _exhaustive_short(ctx):
             for mode in MODES:
                 reqs.append(T(mode, U32MAX - len(s), s))
                 reqs.append(T(mode, 1, s))
-    return reqs
+    return [r for r in reqs if not _is_blank_expr(r)]
 
 
 def _stdlib(ctx):
@@ -608,7 +608,7 @@ def streams(ctx):
         b = s.encode("utf-8")
         for mode in MODES:
             for st in _starts(len(b)):
-                if mode == "e" and st > 0 and not b.strip(b" \t\r\n\x0c"):
+                if mode == "e" and st > 0 and _no_token(b):
                     continue        # known finding 1, probed above
                 reqs.append(T(mode, st, b))
     out.append(Stream("corpus-all-modes-all-offsets", reqs, kind="corpus", compare=False,
